@@ -46,6 +46,8 @@ func c12Scenarios(thorough bool) []cmdScn {
 	// answer and must still time out
 	out = append(out, cmdScn{Name: "c12:seq-reuse-then-silent", Terms: []termSpec{{Phone: p1, Behaviour: "prompt", Expect: 1}},
 		SeqCalls: [][]callSpec{{{Key: p1, Cmd: 0x8104, TimeoutMs: 3000}, {Key: p1, Cmd: 0x8801, TimeoutMs: 50}}}})
+	out = append(out, cmdScn{Name: "c12:seq-reuse-absent-between", Terms: []termSpec{{Phone: p1, Behaviour: "prompt", Expect: 1}},
+		SeqCalls: [][]callSpec{{{Key: p1, Cmd: 0x8104, TimeoutMs: 3000}, {Key: "nobody", Cmd: 0x8103, TimeoutMs: 3000}, {Key: p1, Cmd: 0x8801, TimeoutMs: 50}}}})
 	out = append(out, cmdScn{Name: "c12:seq-reuse-all-silent", Terms: []termSpec{{Phone: p1, Behaviour: "never", Expect: 2}},
 		SeqCalls: [][]callSpec{{{Key: p1, Cmd: 0x9101, TimeoutMs: 10}, {Key: p1, Cmd: 0x8103, TimeoutMs: 20}}}})
 	// the first platform frame on the connection is a command: platform serial 0
